@@ -116,6 +116,17 @@ CLAIMED['C03'] = (
     'the 44 declared types of C01.',
     'Decimal literals are enumerated from a vocabulary (stated); float rounding is not modelled',
     'symbolic execution of the real code (CrossHair primitives + z3), metamorphic assertion, path-tree exhaustion where stated, concrete replay')
+CLAIMED['C07'] = (
+    'Bounded symbolic model checking of Schema mutation (item / attribute assignment and deletion, pop, popitem, update, '
+    'setdefault, clear, |=, copy) as ONE INDUCTIVE STEP from an arbitrary valid state: the pre-state is built through the '
+    'public API from solver-chosen presence bits and unbounded conforming solver integers, then one operation with solver-chosen '
+    'key (every name, alias, the property, an unknown key) and value (unbounded int, convertible / invalid string, nested dict '
+    'forms); afterwards either the operation raised and nothing changed, or every validity clause holds (conforming values, '
+    'required present, immutable unchanged, views agree, no_output absent, dependant recomputed, copy independent). One '
+    'obligation per class x operation, every tree exhausted; plus 2-3 step histories (explored) and the DataClass attribute API.',
+    'the induction needs every reachable state to be a state of the generator; the history obligations probe that for 2 (3) '
+    'steps; 3 Schema classes + 1 DataClass',
+    'symbolic execution of the real code (CrossHair primitives + z3), inductive step over symbolic pre-states, path-tree exhaustion, concrete replay')
 NOT_APPLICABLE = {}
 
 def main():
